@@ -122,6 +122,10 @@ func (c *spliceInsert) Data() []byte {
 		bytes[4] |= 0x80
 	}
 
+	if c.eventCancelIndicator {
+		// a cancelled splice_insert ends after the cancel indicator
+		return bytes[:5]
+	}
 	bytes[5] = 0x0F // reserved
 
 	if c.outOfNetworkIndicator {
